@@ -15,7 +15,7 @@ def main():
     random.Random(seed).shuffle(files)
     def run(f):
         spec = json.load(open(f))
-        p = subprocess.run([os.path.join(here, 'bin', 'notacheck'), '-property', pid, '-tier', 'quick', '-repo', repo,
+        p = subprocess.run([os.environ.get('NOTACHECK', os.path.join(here, 'bin', 'notacheck')), '-property', pid, '-tier', 'quick', '-repo', repo,
                             '-overlay', f, '-no-evidence', '-json'], capture_output=True, text=True, errors='replace')
         keys = []
         for line in p.stdout.splitlines():
